@@ -41,6 +41,8 @@ uint64_t q120_product_check(q120_kernel_t k, int avx2, uint64_t ell, int famx, i
 // T threads build ntt+intt tables of random sizes at a barrier; worst-case transforms through them are compared (modulo
 // each prime) with the sequentially built tables seq_ntt[log2 n] / seq_intt[log2 n]. Reports violations itself; returns lanes compared.
 uint64_t q120_concurrent_build_check(int T, rng_t* r, q120_ntt_precomp* const* seq_ntt, q120_ntt_precomp* const* seq_intt);
+// every length in [ell0, ell1]: reference vs AVX2 flavour (historical kernels vs their successors), congruent modulo each prime
+uint64_t q120_pairwise_ell_check(q120_kernel_t k0, uint64_t ell0, uint64_t ell1, int famx, int famy, rng_t* r);
 // all product kernels from T threads at once, private operands; violations are reported inside; returns wrong results
 uint64_t q120_concurrent_kernel_check(int T, rng_t* r, int iters, uint64_t* calls);
 
